@@ -408,7 +408,8 @@ class AccSim:
             fn = getattr(lib, c["name"])
         except AttributeError:
             return None
-        idx = (ctypes.c_int64 * 8)(*(c["idx"] + [0] * (8 - len(c["idx"]))))
+        nidx = max(8, len(c["idx"]))
+        idx = (ctypes.c_int64 * nidx)(*(c["idx"] + [0] * (nidx - len(c["idx"]))))
         out = (ctypes.c_char * 16)()
         if c["action"] == "set":
             ctypes.memmove(out, c["value"], len(c["value"]))
@@ -447,7 +448,7 @@ class AccSim:
                 L.append(f"static const unsigned char {nm}_data[] = {{{arr}}};")
                 body.append(f"  char* {nm} = (char*) malloc({max(len(data), 0)}); if ({len(data)}) memcpy({nm}, {nm}_data, {len(data)});")
                 res.probe("sanitizer_image_" + key[0])
-        body.append("  char out[16]; int64_t idx[8];")
+        body.append("  char out[16]; int64_t idx[16];")
         okeys = {o.k: (("buf", w.bufs.index(o.buf)), o.off) if typegen.has_refs(schema, o.t) else (("obj", o.k), 0) for o in objs}
         ncalls = 0
         for j, c in enumerate(list(script) + list(sets)):
